@@ -125,6 +125,22 @@ static const ares_nameoffset_t *ares_nameoffset_find(ares_llist_t *list,
       continue;
     }
 
+    /* That "." must be a label separator and not an escaped dot which is part
+     * of a label, e.g. "a\.example.com" is the label "a.example" followed by
+     * "com" and does not end in the name "example.com".  It is escaped if
+     * preceded by an odd number of backslashes ("\\." is an escaped backslash
+     * followed by a separator). */
+    if (prefix_len != 0) {
+      size_t nslash = 0;
+      while (nslash < prefix_len - 1 &&
+             name[prefix_len - 2 - nslash] == '\\') {
+        nslash++;
+      }
+      if (nslash % 2 != 0) {
+        continue;
+      }
+    }
+
     longest_match = val;
   }
 
